@@ -67,6 +67,15 @@ func (r *RoutingTable) verifyRoutingTable(id uint64, table map[uint64]*route) er
 	if r.config.PartitionCount != uint64(len(table)) {
 		return fmt.Errorf("invalid partition count: %d", len(table))
 	}
+	for partID, data := range table {
+		// The table is applied to r.primary and r.backup by partition id.
+		if partID >= r.config.PartitionCount {
+			return fmt.Errorf("invalid partition id: %d", partID)
+		}
+		if data == nil {
+			return fmt.Errorf("no route for partition id: %d", partID)
+		}
+	}
 	return nil
 }
 
